@@ -50,21 +50,21 @@ func float64Model[T fixed.Dx](op, arg string) string {
 func float128Model[T fixed.Dx](op, arg string) string {
 	switch op {
 	case "fromf64":
-		return i128Big(f128.VerifC03Raw(f128.From[T](parseF64(arg)))).String()
+		return raw128(f128.From[T](parseF64(arg))).String()
 	case "fromf32":
-		return i128Big(f128.VerifC03Raw(f128.From[T](parseF32(arg)))).String()
+		return raw128(f128.From[T](parseF32(arg))).String()
 	case "asf64":
-		return strconv.FormatUint(math.Float64bits(f128.As[T, float64](f128.VerifC03FromRaw[T](toI128(arg)))), 16)
+		return strconv.FormatUint(math.Float64bits(f128.As[T, float64](mk128[T](parseBig(arg)))), 16)
 	case "asf32":
-		return strconv.FormatUint(uint64(math.Float32bits(f128.As[T, float32](f128.VerifC03FromRaw[T](toI128(arg))))), 16)
+		return strconv.FormatUint(uint64(math.Float32bits(f128.As[T, float32](mk128[T](parseBig(arg))))), 16)
 	case "fromf64n":
-		return i128Big(f128.VerifC03Raw(f128.From[T](myFloat64(parseF64(arg))))).String()
+		return raw128(f128.From[T](myFloat64(parseF64(arg)))).String()
 	case "fromf32n":
-		return i128Big(f128.VerifC03Raw(f128.From[T](myFloat32(parseF32(arg))))).String()
+		return raw128(f128.From[T](myFloat32(parseF32(arg)))).String()
 	case "asf64n":
-		return strconv.FormatUint(math.Float64bits(float64(f128.As[T, myFloat64](f128.VerifC03FromRaw[T](toI128(arg))))), 16)
+		return strconv.FormatUint(math.Float64bits(float64(f128.As[T, myFloat64](mk128[T](parseBig(arg))))), 16)
 	case "asf32n":
-		return strconv.FormatUint(uint64(math.Float32bits(float32(f128.As[T, myFloat32](f128.VerifC03FromRaw[T](toI128(arg)))))), 16)
+		return strconv.FormatUint(uint64(math.Float32bits(float32(f128.As[T, myFloat32](mk128[T](parseBig(arg)))))), 16)
 	}
 	return "bad-op"
 }
